@@ -93,7 +93,8 @@ def check(fb, ctx):
 
     now_call = lambda z: hirq.calls_path(strip(z), r"time::Instant::now$")
     start_ids = hirq.let_ids(rh["body"], now_call)
-    deadline_ids = hirq.let_ids(rh["body"], lambda z: strip(z).get("k") == "binary" and strip(z)["op"] == "Add" and hirq.is_lid(strip(strip(z)["a"]), start_ids) and field_of(strip(z)["b"], "limits", "max_time"))
+    # (the start may be read in place: `let deadline = Instant::now() + limits.max_time;` before the loop)
+    deadline_ids = hirq.let_ids(rh["body"], lambda z: strip(z).get("k") == "binary" and strip(z)["op"] == "Add" and (hirq.is_lid(strip(strip(z)["a"]), start_ids) or bool(now_call(strip(z)["a"]))) and field_of(strip(z)["b"], "limits", "max_time")) - hirq.let_ids(loops[0], lambda z: True)
     now_ids = hirq.let_ids(loops[0], now_call)
     # the round counter: `let mut c = 0` before the loop, `c += 1` at the loop's top level
     zero_ids = hirq.let_ids(rh["body"], lambda z: hirq.literal(z) == 0)
@@ -205,7 +206,12 @@ def check(fb, ctx):
             while isinstance(e, dict) and e.get("k") == "field":
                 e = strip(e["e"])
             return e
-        t = [x for x in find_all(l, lambda z: z.get("k") == "if") if (lambda c: c.get("k") == "binary" and c.get("op") in ("Ge", "Gt") and hirq.is_lid(base_local(c["b"]), a_deadline) and (hirq.is_lid(strip(c["a"]), a_now) or now_call(c["a"])))(strip(x["cond"])) and runlimit_kind(x["then"]) == "Timeout" and find_all(x["then"], lambda z: z.get("k") == "ret")]
+        def time_test(c):
+            if c.get("k") != "binary" or c.get("op") not in ("Ge", "Gt", "Le", "Lt"):
+                return False
+            now_, lim_ = (c["a"], c["b"]) if c["op"] in ("Ge", "Gt") else (c["b"], c["a"])       # `now >= limit` or `limit <= now`
+            return hirq.is_lid(base_local(lim_), a_deadline) and (hirq.is_lid(strip(now_), a_now) or bool(now_call(now_)))
+        t = [x for x in find_all(l, lambda z: z.get("k") == "if") if time_test(strip(x["cond"])) and runlimit_kind(x["then"]) == "Timeout" and find_all(x["then"], lambda z: z.get("k") == "ret")]
         qs = mcalls(l, r"World::query_match(_all)?$")
         after_q = bool(t) and t[0]["ln"] > max(q["ln"] for q in qs)
         ctx.check(after_q, "TIMECHECK", f"authorize_inner query loop #{n}", f"TIMECHECK|loop{n}", "no `if now >= time_limit { return Err(Timeout) }` after the query in this loop", f"{ab['file']}:{l['ln']}")
